@@ -526,3 +526,6 @@ M("c10-remove-inventory-wrong-test", "C10", "R10.7", RP, "                if ite
 M("c19-ctor-swaps-fields", "C19", "R19.7", RP, "        super().__init__(host, port, direction, last_connection_attempt, ban_score)\n\n    def is_time_to_connect", "        super().__init__(host, port, direction, ban_score, last_connection_attempt)\n\n    def is_time_to_connect")
 M("c04-ctor-heads-swapped", "C04", "R04.7", CS, "        self.heads = heads  # hash=>block ... but restricted to blocks w/o children.", "        self.heads = block_by_hash  # hash=>block ... but restricted to blocks w/o children.")
 M("c01-output-eq-value-only", "C01", "R01.12", DT, "        return self.value == other.value and self.public_key == other.public_key", "        return self.value == other.value")
+M("c17-proof-gt", "C17", "R17.4", MT, "    if index_of_interest >= merkle_node.children[1].index:", "    if index_of_interest > merkle_node.children[1].index:")
+M("c17-proof-order-lost", "C17", "R17.4", MT, "        reconstruct = lambda ot, rec: (rec, ot) # noqa", "        reconstruct = lambda ot, rec: (ot, rec) # noqa")
+M("c17-proof-sibling-not-hashed", "C17", "R17.4", MT, "    simplified_other = MerkleNode(other.index, (), other.hash())", "    simplified_other = MerkleNode(other.index, (), other.value)")
